@@ -188,9 +188,23 @@ func (store *BaseStore[E]) Create(ctx MutateContext, entity E) error {
 		return errors.Errorf("an entity of type %v already exists with id %v", store.GetSingularEntityType(), entity.GetId())
 	}
 
+	// When created through a child store over an entity which already exists in the parent store, the parent's part
+	// is overwritten: for the parent's indexes and constraints that is an update and they have to see the old values.
+	parentExisted := store.parent != nil && store.parent.IsEntityPresent(ctx.Tx(), entity.GetId())
+
 	bucket := store.getOrCreateEntityBucket(ctx.Tx(), []byte(entity.GetId()))
 	if bucket.HasError() {
 		return bucket.GetError()
+	}
+	indexingContext := store.newIndexingContext(true, ctx, entity.GetId(), bucket)
+	if parentExisted {
+		for parentContext := indexingContext.Parent; parentContext != nil; parentContext = parentContext.Parent {
+			parentContext.IsCreate = false
+		}
+		indexingContext.Parent.ProcessBeforeUpdate()
+		if bucket.HasError() {
+			return bucket.GetError()
+		}
 	}
 	persistCtx := &PersistContext{
 		MutateContext: ctx,
@@ -203,7 +217,6 @@ func (store *BaseStore[E]) Create(ctx MutateContext, entity E) error {
 	if bucket.HasError() {
 		return bucket.GetError()
 	}
-	indexingContext := store.newIndexingContext(true, ctx, entity.GetId(), bucket)
 	indexingContext.ProcessAfterUpdate()
 
 	changeFlow := &EntityChangeState[E]{
